@@ -196,7 +196,9 @@ func C15(c *ev.Ctx) {
 	c.Finish("model_checking")
 }
 
-type fixedProvider struct{ ops []*operation.AnchoredOperation }
+type fixedProvider struct {
+	ops []*operation.AnchoredOperation
+}
 
 func (f fixedProvider) GetTxnOperations(*txn.SidetreeTxn) ([]*operation.AnchoredOperation, error) {
 	return f.ops, nil
